@@ -1,6 +1,6 @@
 """C03 - every parse failure surfaces as ArgumentError or exit status 2, nothing else.
 
-Fault enumeration on the real parsers.  Six parser shapes (mc/checks/c03_shapes.py) are driven through all five
+Fault enumeration on the real parsers.  Seven parser shapes (mc/checks/c03_shapes.py) are driven through all five
 parse methods with every member of a finite, stated space of well- and ill-formed inputs:
 
   argv      one item (option-name form x value token x spelling) inserted into the shape's minimal valid command
@@ -9,7 +9,7 @@ parse methods with every member of a finite, stated space of well- and ill-forme
             with the malformed key forms
   path      parse_path on missing / directory / binary / NUL / self-including / ... files and on generated documents
   object    parse_object with wrong-kind Python objects at every key (None, containers, non-string keys, cyclic
-            objects) and the string tokens
+            objects) and the string tokens; also with defaults=False (objects / valid values at plain keys)
   env       parse_env with every token in every option's environment variable
   defcfg    parse_args([]) with a faulty default config file
   history   two (thorough: up to three) calls on ONE parser, drawn from a per-shape alphabet of valid calls, requested
@@ -22,7 +22,7 @@ this and the explicit construction).
 
 Oracle (independent of the implementation): the call must terminate within the horizon and end in one of
   Namespace | ArgumentError (exit_on_error False) | SystemExit(2) with usage + "error:" on stderr (exit_on_error
-  True) | SystemExit(0) only when the command line asked for help / print_config.
+  True) | SystemExit(0) only when the command line asked for help / print_config AND something was printed.
 
 A case is a JSON value {"shape", "eoe", "chan", <input>, "focus"[, "subs"]}; "focus" names the varied item (token class,
 argument kind, name form) and determines the signature together with the observed deviation.  See notes/C03.md.
@@ -41,7 +41,7 @@ META = {
     "technique": "exhaustive product of parser shapes x option-name forms x fault-value tokens x spelling x channel x "
     "exit_on_error on the real parse methods, each call classified by outcome type under a per-call time horizon",
     "level_text": "Every member of a finite, stated product of malformed inputs (option-name grammar x fault-token "
-    "alphabet x six parser shapes x five parse methods x both exit_on_error modes, single faults completely and "
+    "alphabet x seven parser shapes x five parse methods x both exit_on_error modes, single faults completely and "
     "pairs against a context set) is executed on the unmodified parse methods; the only accepted outcomes are a "
     "Namespace, ArgumentError, exit 2 with usage and error line, or a requested exit 0. The same oracle judges "
     "every call of all two-call histories over a per-shape call alphabet on one parser (a failed or exiting call "
@@ -101,6 +101,7 @@ VALUES = [
     ("list-document", "[1, 2]", ""),
     ("int-key-mapping", "{1: 2}", ""),
     ("mapping-unknown-key", "zz: 1", ""),
+    ("list-of-unknown-key-mapping", '[{"zz": 1}]', ""),
     ("mapping-sets-config-key", "cfg: 'i: 2'", ""),
     ("nonimportable-path", "no.such.Class", "ad"),
     ("module-attr-not-class", "os.path", ""),
@@ -151,6 +152,7 @@ OBJECTS = [
     ("py-list", [1]),
     ("py-dict", {"a": 1}),
     ("py-list-none", [None]),
+    ("py-list-of-unknown-key-dict", [{"zz": 1}]),
     ("py-nonstring-key-dict", {"__items__": [[1, 2]]}),
     ("py-cyclic-list", {"__cyclic__": "list"}),
     ("py-cyclic-dict", {"__cyclic__": "dict"}),
@@ -271,6 +273,7 @@ TOK_FAMILY = {
     "py-spec-init_args-none": "spec-init_args-null",
     "py-nonstring-key-dict": "int-key-mapping",
     "py-int-beyond-float": "int-beyond-float",
+    "py-list-of-unknown-key-dict": "list-of-unknown-key-mapping",
 }
 # faults that strike in the loader / conversion layer, before the declared type of the argument matters: their
 # position is named coarsely (document / config-option / other-argument / parse_path-argument / default-config-file)
@@ -292,6 +295,11 @@ POS_FAMILY = {
     "nargs-2-int": "nargs", "nargs-star-int": "nargs", "nargs-optional-int": "nargs",
     "registered-decimal": "registered-decimal", "restricted-float": "restricted-number",
     "type": "type-of-class", "callable": "callable", "dict-str-int": "typed-dict", "list-int": "typed-list",
+    "optional-list-str": "typed-list", "list-any": "list-any", "list-dataclass": "list-dataclass",
+    "nargs-plus-choices": "nargs-choices",
+    "registered-uuid": "registered-uuid", "registered-range": "registered-range",
+    "registered-timedelta": "registered-timedelta", "registered-complex": "registered-complex",
+    "registered-bytes": "registered-bytes", "registered-path": "registered-path",
 }
 PLAIN_FORMS = {"plain", "abbreviation", "raw", "quoted", "nested:raw"}
 
@@ -330,7 +338,14 @@ def signature(dev, case):
     if dev == "escape:jsonargparse._util.PathError" and focus["kind"] == "parse_path-argument":
         # parse_path checks its path argument before the try block: one behaviour for every path that fails the check
         return f"{dev}:bad-path:parse_path-argument"
+    if dev == "escape:AssertionError" and focus["kind"] == "nargs-plus-choices" and case["chan"] != "argv":
+        # an option with nargs and choices but no type asserts that the value is a list: one behaviour for every
+        # value that is not a list, whatever the token and the key form
+        return f"{dev}:non-list-value:nargs-choices"
     tok = tok_family(focus["tok"], focus["kind"])
+    if focus.get("ctx") == "same-item-twice" and tok.startswith("spec-"):
+        # the second of two identical class-spec-like items is merged into the first: one behaviour for every spec
+        tok = "repeated-class-spec"
     if tok in LOADER_LEVEL:
         return f"{dev}:{tok}:{loader_level_position(case)}"
     form = focus.get("form", "plain")
@@ -407,6 +422,8 @@ def _call(parser, call):
                 f.write(expand(call["text"]))
         return outcome(parser.parse_path, call["path"], horizon_s=HORIZON)
     if chan == "object":
+        if call.get("defaults") is False:  # the documented keyword of every parse method: do not start from the defaults
+            return outcome(lambda obj: parser.parse_object(obj, defaults=False), build_obj(call["obj"]), horizon_s=HORIZON)
         return outcome(parser.parse_object, build_obj(call["obj"]), horizon_s=HORIZON)
     if chan == "env":
         return outcome(parser.parse_env, {k: expand(v) for k, v in call["env"].items()}, horizon_s=HORIZON)
@@ -469,7 +486,9 @@ def judge(case, o):
         code = o["code"]
         if code == 0:
             if case["chan"] == "argv" and allows_exit0(case["argv"]):
-                return []
+                # status 0 means "the help / the configuration was printed": an exit 0 that printed nothing is a
+                # failure that left through the wrong channel
+                return [] if (o.get("stdout") or "").strip() else ["exit-0-without-output"]
             return ["exit-0-unrequested"]
         if code == 2:
             if not eoe:
@@ -505,9 +524,18 @@ def run_one(case):
         # a horizon hit is confirmed by a second execution (the first call in a worker also pays for lazy imports)
         o = execute(case)
     devs = []
-    for d in judge(case, o):
+    found = judge(case, o)
+    with_defaults = None
+    if found and case.get("defaults") is False:
+        # a deviation the same input also shows with defaults=True is not an effect of the keyword
+        c2 = {k: v for k, v in case.items() if k != "defaults"}
+        with_defaults = judge(c2, execute(c2))
+    for d in found:
         detail = f"[{case['focus']['tok']} at {case['focus']['kind']}, {case['focus'].get('form', 'plain')}] " + _detail(o)
-        devs.append((signature(d, case), detail))
+        sig = signature(d, case)
+        if with_defaults is not None and d not in with_defaults:
+            sig, detail = "no-defaults:" + sig, "[defaults=False] " + detail
+        devs.append((sig, detail))
     return case, _obs(o), devs
 
 
@@ -568,7 +596,12 @@ def values_for(valid, level=None):
 
 SCALAR_KINDS = {"link-target", "registered-decimal", "restricted-float", "int", "str", "float", "bool", "optional-int", "enum", "group-int", "group-str", "dataclass-field",
                 "class-group-field", "link-source", "choices", "yesno", "nargs-2-int", "nargs-star-int",
-                "nargs-optional-int", "action-parser-field"}
+                "nargs-optional-int", "action-parser-field", "nargs-plus-choices", "registered-uuid",
+                "registered-range", "registered-timedelta", "registered-complex", "registered-bytes", "registered-path"}
+# kinds whose value is a container / a structure: the command line may give them twice (second item merged into /
+# replacing the first); the pair context "same-item-twice" is enumerated for these
+CONTAINER_KINDS = {"list-int", "list-any", "optional-list-str", "list-dataclass", "list-class", "class", "class-link-target",
+                   "dataclass", "dict-str-int", "untyped-dict", "untyped-list", "any", "callable", "type"}
 
 
 def is_ntp(tok, kind):
@@ -589,6 +622,8 @@ def argv_single_cases(shape, tier):
         opt = "/".join(pre + [dest])
         for form, name in name_forms(dest, kind):
             level = None
+            if quick and shape == "G" and kind.startswith("registered-") and form not in ("plain", "plus"):
+                continue  # malformed names of scalar options are rejected by name: enumerated with the scalars of shape A
             if quick and form != "plain":
                 level = "s" if kind.split("@")[0] in SCALAR_KINDS else "a"
             for tok, text in values_for(valid, level):
@@ -634,6 +669,8 @@ def context_items(shape, pre, dest, kind, valid):
         ctx.append(("append", [f"--{dest}+={LIB}.Sub2"]))
     if kind == "list-int":
         ctx.append(("append", [f"--{dest}+=3"]))
+    if kind in ("list-any", "optional-list-str"):
+        ctx.append(("append", [f"--{dest}+=b"]))
     return ctx
 
 
@@ -645,11 +682,16 @@ def argv_pair_cases(shape, tier):
     """Two varying items: context item + plain single of the option, both orders.  The thorough tier adds three
     items: every ordered pair of distinct context items around the single."""
     for pre, dest, kind, valid in all_options(shape):
+        if tier == "quick" and kind.startswith("registered-") and shape == "G":
+            continue  # scalar kinds: the pair contexts of scalars are enumerated with the scalars of shape A
         ctxs = context_items(shape, pre, dest, kind, valid)
-        for tok, text in values_for(valid):
+        for tok, text in values_for(valid, "a" if tier == "quick" and kind.split("@")[0] in SCALAR_KINDS else None):
             if is_ntp(tok, kind):
                 continue
             item = [f"--{dest}={text}"]
+            if kind.split("@")[0] in CONTAINER_KINDS:
+                focus = {"tok": tok, "kind": kind, "form": "plain", "ctx": "same-item-twice"}
+                yield {"shape": shape, "chan": "argv", "argv": place(shape, pre, item + item), "focus": focus}, False, False
             for cname, citems in ctxs:
                 for order in ("ctx-first", "ctx-last"):
                     items = citems + item if order == "ctx-first" else item + citems
@@ -772,6 +814,9 @@ def object_cases(shape, tier):
                 obj = _obj_doc(shape, pre, [key], val)
                 focus = {"tok": tok, "kind": kind, "form": form, "opt": opt}
                 yield {"shape": shape, "chan": "object", "obj": obj, "focus": focus}, ntp, form == "plain"
+                if form == "plain" and not ntp and (tok.startswith("py-") or tok == "valid" or not quick):
+                    focus = dict(focus, defaults=False)
+                    yield {"shape": shape, "chan": "object", "obj": obj, "defaults": False, "focus": focus}, False, False
     if shape == "D":
         for tok, val in OBJECTS + [("py-str", "s1"), ("unknown-subcommand", "zz")]:
             for label, obj in (
@@ -783,6 +828,9 @@ def object_cases(shape, tier):
                 ntp = tok in NTP_OBJECTS and label != "subcommand-key"
                 focus = {"tok": tok, "kind": label, "form": "plain"}
                 yield {"shape": shape, "chan": "object", "obj": obj, "focus": focus}, ntp, False
+                if not ntp:
+                    focus = dict(focus, defaults=False)
+                    yield {"shape": shape, "chan": "object", "obj": obj, "defaults": False, "focus": focus}, False, False
 
 
 def env_base(shape, pre):
@@ -880,6 +928,8 @@ def hist_alphabet(shape):
         argv("a-print+invalid", "print_config+value-error", "open-bracket", k_top, [P, f"--{top}=["] + base)
         argv("a-print+badflag", "print_config+value-error", "no-value", "builtin-option", [P + "=zz"] + base)
         argv("a-print+cfg-missing", "print_config+config-error", "missing-file", "config", [P, "--cfg=missing.yaml"] + base)
+        # a config that is read leniently but cannot be dumped (a key the parser does not define)
+        argv("a-print+cfg-unknown", "print_config+config-error", "unknown-key-file", "config", [P, "--cfg=unknown.yaml"] + base)
     if shape == "D":  # the same below the subcommands
         argv("s-valid", "valid", "valid", "int@sub", ["s1", "--a=2"])
         argv("s-invalid", "value-error", "open-bracket", "int@sub", ["s1", "--a=["])
@@ -916,6 +966,8 @@ def hist_alphabet(shape):
 def history_cases(shape, tier):
     """Ordered sequences of calls on one parser.  quick: (any call, second-call subset); thorough: every ordered pair
     and every triple (any, any, second-call subset; exit_on_error=False only)."""
+    if shape not in HIST_TOP_OPT:
+        return  # shape G: single calls only
     alpha = hist_alphabet(shape)
     second = [c for c in alpha if c["label"] in HIST_SECOND_QUICK]
     seqs = [[c1, c2] for c1 in alpha for c2 in (second if tier == "quick" else alpha)]
@@ -927,7 +979,15 @@ def history_cases(shape, tier):
         yield {"shape": shape, "chan": "history", "calls": calls, "focus": focus}, False, False
 
 
-SHAPES = "ABCDEF"
+SHAPES = "ABCDEFG"
+A_SET = {c for c, _, levels in VALUES if "a" in levels}
+
+
+def _malformed_key(case):
+    """Document / object cases whose key is a malformed form of a declared name (the documented 'key+' form is not
+    malformed): the quick tier runs them with exit_on_error=False only."""
+    form = case["focus"].get("form", "plain").split(":")[0]
+    return form not in ("plain", "raw", "quoted", "nested", "plus")
 
 
 def space(tier):
@@ -972,19 +1032,27 @@ def space(tier):
             f = case["focus"]
             reduced = quick and f.get("spelling") == "k v" and f["form"] not in ("plain", "unknown", "bare-double-dash")
             # quick: the two-item spelling of a malformed option name runs with exit_on_error=False only (the
-            # one-item spelling and the plain names run in both modes)
+            # one-item spelling and the plain names run in both modes); the two-item spelling of a plain name runs in
+            # exit mode with the a-set of tokens only
+            if quick and f.get("spelling") == "k v" and f["form"] == "plain" and f["tok"] not in A_SET:
+                reduced = True
             admit(case, ntp, rep, (False,) if reduced else both)
         for case, ntp, rep in argv_pair_cases(shape, tier):
             admit(case, ntp, rep, (False,) if quick else both)
         for chan in ("string", "path"):
             for case, ntp, rep in doc_cases(shape, tier, chan):
-                admit(case, ntp, rep, both)
+                f = case["focus"]
+                one_mode = quick and (_malformed_key(case) or (f.get("form") == "quoted" and f["tok"] not in A_SET))
+                # quick: malformed keys, and the quoted style (a string value, as in objects) outside the a-set of
+                # tokens, run with exit_on_error=False only
+                admit(case, ntp, rep, (False,) if one_mode else both)
         for case, ntp, rep in path_fault_cases(shape, tier):
             admit(case, ntp, rep, both)
         for case, ntp, rep in object_cases(shape, tier):
-            admit(case, ntp, rep, both)
+            admit(case, ntp, rep, (False,) if quick and (_malformed_key(case) or case.get("defaults") is False) else both)
         for case, ntp, rep in env_cases(shape, tier):
-            admit(case, ntp, rep, both)
+            # quick: in exit mode the environment gets the a-set of tokens (the values reach the same code as argv strings)
+            admit(case, ntp, rep, (False,) if quick and case["focus"]["tok"] not in A_SET else both)
         for case, ntp, rep in defcfg_cases(shape, tier):
             admit(case, ntp, rep, both)
         for case, ntp, rep in history_cases(shape, tier):
@@ -1128,7 +1196,7 @@ def explore(ctx):
             else "both constructions (explicit same value / default settings) when exit_on_error=False",
             "histories": "ordered pairs (any call of the per-shape call alphabet, second-call subset)" if ctx.quick
             else "all ordered pairs of the per-shape call alphabet + triples (any, any, second-call subset; exit_on_error=False)",
-            "history_call_alphabet": {sh: len(hist_alphabet(sh)) for sh in SHAPES},
+            "history_call_alphabet": {sh: len(hist_alphabet(sh)) for sh in SHAPES if sh in HIST_TOP_OPT},
         },
         distinct_observations=len(obs_count),
         horizon_hits=timeouts,
